@@ -5,6 +5,7 @@ package storage
 import (
 	"github.com/KevoDB/kevo/pkg/memtable"
 	"github.com/KevoDB/kevo/pkg/sstable"
+	"github.com/KevoDB/kevo/pkg/wal"
 )
 
 // VerifEntry is one stored version of a key as seen by the verification harness.
@@ -69,4 +70,9 @@ func (m *Manager) VerifPendingFlush() int {
 // VerifNextSequence returns the next sequence number of the current WAL.
 func (m *Manager) VerifNextSequence() uint64 {
 	return m.getWAL().GetNextSequence()
+}
+
+// VerifWAL returns the current WAL (for retention scenarios of the verification harness).
+func (m *Manager) VerifWAL() *wal.WAL {
+	return m.getWAL()
 }
